@@ -284,9 +284,16 @@ impl std::ops::Not for RowIdMask {
     type Output = Self;
 
     fn not(self) -> Self::Output {
-        Self {
-            block_list: self.allow_list,
-            allow_list: self.block_list,
+        match (self.allow_list, self.block_list) {
+            // The complement of "all rows" is "no rows"
+            (None, None) => Self::allow_nothing(),
+            (Some(allow_list), None) => Self::from_block(allow_list),
+            (None, Some(block_list)) => Self::from_allowed(block_list),
+            // The mask selects `allow - block`, so its complement blocks exactly those rows
+            (Some(mut allow_list), Some(block_list)) => {
+                allow_list -= &block_list;
+                Self::from_block(allow_list)
+            }
         }
     }
 }
@@ -339,7 +346,8 @@ impl std::ops::BitOr for RowIdMask {
                 rhs_block_list -= allow_list;
                 Some(rhs_block_list)
             } else {
-                Some(rhs_block_list)
+                // We select all rows and so does the union
+                None
             }
         } else {
             None
